@@ -22,7 +22,7 @@ NPTS = 25
 
 
 def floors(tier):
-    return {"points_checked": 400, "points_generic": 200, "points_passed_as_non_contiguous_view": 300, "points_checked_right_after_a_call_with_an_integer_array": 500, "solver_runs_with_gradient_scaler": 8, "points_within_1e-7_of_a_cosine_zero": 20, "points_at_the_double_nearest_to_a_cosine_zero": 15, "points_checked_after_solver_runs": 250, "solver_runs_on_exported_functions": 20, "history_calls_judged": 1500, "history_calls_through_one_overwritten_array": 700, "calls_at_non_finite_points": 100, "__nontrivial__": 40}
+    return {"points_checked": 400, "points_generic": 200, "points_passed_as_non_contiguous_view": 300, "points_checked_right_after_a_call_with_an_integer_array": 500, "solver_runs_with_gradient_scaler": 8, "points_within_1e-7_of_a_cosine_zero": 20, "points_at_the_double_nearest_to_a_cosine_zero": 15, "points_checked_after_solver_runs": 250, "solver_runs_on_exported_functions": 20, "history_calls_judged": 1500, "history_calls_with_the_point_given_as_list_or_tuple": 200, "history_calls_through_one_overwritten_array": 700, "calls_at_non_finite_points": 100, "__nontrivial__": 40}
 
 
 def cases(tier, seed):
@@ -154,6 +154,18 @@ def run_history(spec, out):
                 out.count("history_calls_through_one_overwritten_array")
             else:
                 arg = pool[k].copy()
+                if r > 0.85:
+                    # the point written as a plain Python list or tuple: a call that is accepted must answer as for the array
+                    arg = (list if r > 0.92 else tuple)(float(v) for v in pool[k])
+                    try:
+                        a = (f if what == "f" else g)(arg)
+                    except Exception:
+                        out.count("calls_with_a_list_or_tuple_that_raised")
+                        continue
+                    out.count("history_calls_with_the_point_given_as_list_or_tuple")
+                    answers.append((k, what, np.array(a, copy=True) if what == "g" else a))
+                    out.count("history_calls_judged")
+                    continue
             a = (f if what == "f" else g)(arg)
             answers.append((k, what, np.array(a, copy=True) if what == "g" else a))
             out.count("history_calls_judged")
